@@ -198,8 +198,22 @@ class CallMixin:
         selfv = fr.locals.get('self')
         if cls is None or selfv is None:
             raise Unsupported('super outside method')
-        args = [self.eval(a) for a in e.args]
-        kwargs = {k.arg: self.eval(k.value) for k in e.keywords}
+        args = []
+        for a in e.args:
+            if isinstance(a, ast.Starred):
+                args.extend(self.iter_values(self.eval(a.value), e))
+            else:
+                args.append(self.eval(a))
+        kwargs = {}
+        for k in e.keywords:
+            if k.arg is None:                       # **kwargs
+                d = self.heap.get(self.eval(k.value))
+                if not isinstance(d, DictObj):
+                    raise Unsupported('** of a non-dict value')
+                for kk, vv in d.items.items():
+                    kwargs[kk] = vv
+            else:
+                kwargs[k.arg] = self.eval(k.value)
         mro = self.P.mro(self.obj_class(selfv))
         i = mro.index(cls)
         for c in mro[i + 1:]:
